@@ -23,29 +23,32 @@ def main():
         print(conf[:1500])
         return 1
     dst = os.path.join(VERIF, "seeded", sid)
+    if os.path.exists(os.path.join(dst, "meta.json")):
+        print("REFUSED: %s exists already" % sid)
+        return 1
     os.makedirs(dst, exist_ok=True)
     shutil.copy(os.path.join(sd, "patch.diff"), os.path.join(dst, "patch.diff"))
     shutil.copy(os.path.join(sd, "demo.rs"), os.path.join(dst, "demo.rs"))
     notes = open(os.path.join(sd, "notes.md")).read() if os.path.exists(os.path.join(sd, "notes.md")) else ""
     with open(os.path.join(dst, "notes.md"), "w") as f:
         f.write(notes)
-    # run the checks against the change
+    # run the checks against the change, on a scratch copy of /repo (never /repo itself)
     patch = os.path.join(dst, "patch.diff")
-    subprocess.check_call(["git", "-C", "/repo", "apply", "--check", patch])
-    subprocess.check_call(["git", "-C", "/repo", "apply", patch])
+    sys.path.insert(0, os.path.dirname(os.path.abspath(__file__)))
+    import bank
+
+    res = bank.run_patch(patch)
+    if "error" in res:
+        print("cannot run the checks:", res["error"])
+        return 1
     results = {}
-    try:
-        for c in checks:
-            p = subprocess.run([os.path.join(VERIF, "check"), c], cwd=VERIF, stdout=subprocess.PIPE, stderr=subprocess.STDOUT)
-            out = p.stdout.decode(errors="replace")
-            keys = [l.strip()[5:] for l in out.splitlines() if l.startswith("  key: ")]
-            results[c] = {"exit": p.returncode, "violation_keys": keys[:6]}
-    finally:
-        subprocess.check_call(["git", "-C", "/repo", "checkout", "--", "."])
-        # the evidence files were rewritten for the modified tree: restore them for the real tree
-        for c in checks:
-            subprocess.run([os.path.join(VERIF, "check"), c], cwd=VERIF, stdout=subprocess.DEVNULL, stderr=subprocess.DEVNULL)
-        subprocess.run(["rm", "-rf", os.path.join(VERIF, "evidence", "replay")])
+    for c in checks:
+        v = res["props"].get(c, {})
+        keys = v.get("violations", [])
+        results[c] = {"exit": 1 if keys else (2 if v.get("internal_error") else 0), "violation_keys": keys[:6]}
+    others = sorted(p for p, v in res["props"].items() if v.get("violations") and p not in checks)
+    if others:
+        print("   also fires in:", others)
     needs = ""
     m = re.search(r"(?is)(needs?|manifest|trigger)[^\n]*\n(.{0,900})", notes)
     if m:
